@@ -7,7 +7,7 @@ import LLRP.Model.Supervisor
   events: `df` dialFail, `hf` handshakeFail, `dr` dropped, `cl` closedLocally, `cs` connStop, `cu:<a>` connUpdate a,
           `st` stop, `ua:<a>` updateAddr a        (addresses are numbers; the initial address is 0)
   reply:  `dials=[0,0,1] reports=[D,U] done=0 next=1`  (`next` = address the next attempt would dial, `-` when done)
-`trysend <outcomes…>`  outcomes `ok | closed | nil | other` → `calls=<n> result=ok|err|pending`
+`trysend <outcomes…>`  outcomes `ok | closed | nil | other` → `calls=<n> sends=<SendFor calls> result=ok|err|pending`
 -/
 namespace LLRP.Oracle
 open LLRP LLRP.Sup
@@ -59,7 +59,8 @@ def handleC15 : Handler := fun args =>
         | .success => "ok"
         | .pending => "pending"
         | _ => "err"
-      some s!"calls={n} result={rs}"
+      let sends := ((os.take n).filter (· != SendOut.noClient)).length
+      some s!"calls={n} sends={sends} result={rs}"
     | none => some "bad-op"
   | _ => none
 
